@@ -174,18 +174,42 @@ impl FakeTower {
     }
 
     async fn serve(self: Arc<Self>, mut listener: Option<tokio::net::TcpListener>) {
+        // While the tower is down its port stays *bound* by a socket that does not listen: connections are refused as
+        // for a dead process, but the number cannot be handed to anybody else. (Scenarios run in parallel and towers
+        // listen on ephemeral ports: a port released by a tower that was down was now and then given to another
+        // scenario's tower, whose log then showed requests of a client that was not its own.)
+        let mut placeholder: Option<tokio::net::TcpSocket> = None;
+        let addr: std::net::SocketAddr = ([127, 0, 0, 1], self.port).into();
         loop {
             let up = self.state.lock().unwrap().up;
             if !up {
                 // a down tower refuses connections: stop listening
-                listener = None;
+                if listener.is_some() {
+                    listener = None;
+                }
+                if placeholder.is_none() {
+                    if let Ok(sock) = tokio::net::TcpSocket::new_v4() {
+                        let _ = sock.set_reuseaddr(true);
+                        if sock.bind(addr).is_ok() {
+                            placeholder = Some(sock);
+                        }
+                    }
+                }
                 tokio::time::sleep(Duration::from_millis(15)).await;
                 continue;
             }
             if listener.is_none() {
-                match tokio::net::TcpListener::bind(("127.0.0.1", self.port)).await {
-                    Ok(l) => listener = Some(l),
-                    Err(_) => {
+                // the placeholder becomes the listener again (no moment at which the port is free)
+                let sock = match placeholder.take() {
+                    Some(s) => Some(s),
+                    None => tokio::net::TcpSocket::new_v4().ok().and_then(|s| {
+                        let _ = s.set_reuseaddr(true);
+                        s.bind(addr).ok().map(|_| s)
+                    }),
+                };
+                match sock.map(|s| s.listen(128)) {
+                    Some(Ok(l)) => listener = Some(l),
+                    _ => {
                         tokio::time::sleep(Duration::from_millis(20)).await;
                         continue;
                     }
